@@ -138,6 +138,10 @@ def _reconstruct_field_specs_from_tokens(tokens: list) -> list[str]:
             current_spec_parts.append(f'"{token.value}"')
         elif token.type == TokenType.NUMBER:
             current_spec_parts.append(str(token.value))
+        elif token.type == TokenType.BOOLEAN:
+            current_spec_parts.append("true" if token.value else "false")
+        elif token.type == TokenType.NULL:
+            current_spec_parts.append("null")
         elif token.type == TokenType.LIST_START:
             in_field_brackets = True
             bracket_depth += 1
